@@ -106,6 +106,9 @@ type Reg struct {
 	Outs   []OutSpec
 	HasErr bool
 	UseIn  bool
+	// PtrIn: the parameter object is taken by pointer (func(p *Params)); the harness keeps the
+	// pointer, as a service that stores its parameter object would (synthesised constructors only)
+	PtrIn bool
 	Deps   []DepSpec
 	Name   string
 	Group  string
@@ -240,7 +243,9 @@ func (r Reg) String() string {
 		}
 	}
 	if len(r.Deps) > 0 {
-		if r.UseIn {
+		if r.UseIn && r.PtrIn && r.Kind == KindMakeFunc {
+			sb.WriteString(" in*{")
+		} else if r.UseIn {
 			sb.WriteString(" in{")
 		} else {
 			sb.WriteString(" <-{")
